@@ -138,6 +138,12 @@ def model_chain(chain):
             if kind != 'ent': raise C.Unsupported('kw')
             f, val = C.KWPREDS[op[1]]
             q = 'add_filter (fun x => %s =? %s) (%s)' % (fld(kind, data, f), cz(val if isinstance(val, int) else ord(val)), q)
+        elif n in ('hfilter', 'hwhere'):
+            e = fld(kind, data, 'a')
+            q = 'add_filter (fun x => %s) (%s)' % (('(%s <? %s)' % (cz(op[2]), e)) if op[1] == 'gt' else ('(negb (%s =? %s))' % (e, cz(op[2]))), q)
+        elif n == 'horder':
+            q = 'add_order [(fun x => %s * %s)] (%s)' % (fld(kind, data, 'a'), cz(op[1]), q)
+            ordered = True
         elif n == 'distinct': q = 'set_distinct true (%s)' % q
         elif n == 'without_distinct': q = 'set_distinct false (%s)' % q
         elif n == 'nest':
@@ -258,12 +264,32 @@ TERMS = [['list'], ['slice', 1, 3], ['slice', None, 2], ['slice', 2, None], ['sl
          ['first'], ['get'], ['exists'], ['count'], ['len'], ['sum'], ['min'], ['max'], ['avg'], ['group_concat'],
          ['random', 2], ['random', 10], ['delete', True], ['delete', False]]
 
+def helper_ops(kind):
+    if not C.applicable(kind, 'a'): return []
+    ops = [['hfilter', 'gt', 1], ['hfilter', 'gt', 2], ['hfilter', 'ne', 3], ['hfilter', 'ne', 1], ['hwhere', 'gt', 0], ['hwhere', 'ne', 2], ['hwhere', 'ne', 7]]
+    if kind != 'pair': ops += [['horder', 1], ['horder', -1]]
+    return ops
+
+def helper_chains(kinds, datasets):
+    """two or three chained steps built by the SAME helper (one code object) with different captured values, and mixed helpers"""
+    for data in datasets:
+        for kind in kinds:
+            hs = helper_ops(kind)
+            for o1, o2 in itertools.product(hs, repeat=2):
+                for term in (['list'], ['count'], ['first'], ['slice', 1, 3]):
+                    yield {'data': data, 'base': kind, 'where': None, 'ops': [list(o1), list(o2)], 'term': list(term)}
+            for o1, o2, o3 in ((['hfilter', 'ne', 1], ['hfilter', 'ne', 2], ['hfilter', 'ne', 3]), (['hwhere', 'ne', 3], ['hwhere', 'ne', 1], ['hwhere', 'ne', 2]),
+                               (['hfilter', 'gt', 0], ['nest', 4, 1, None, None], ['hfilter', 'gt', 2]), (['hwhere', 'gt', 1], ['order', 'a'], ['hwhere', 'gt', 2]),
+                               (['kw', 'a=1'], ['kw', 'name=a'], ['hfilter', 'ne', 7])):
+                yield {'data': data, 'base': kind, 'where': None, 'ops': [list(o1), list(o2), list(o3)], 'term': ['list']}
+
 def ops_for(kind):
     orders = {'a': ORDERS_A, 'ent': ORDERS_ENT, 'name': ['name', '-name', 'lambda name'], 'pair': ['a', '-a', 'name', 'a,-name']}[kind]
     preds = [p for p in C.PREDS if C.applicable(kind, C.PREDS[p][0])]
     ops = [['order', o] for o in orders] + [['filter', p] for p in preds] + [['where', p] for p in preds[:2]]
     if kind == 'ent': ops += [['kw', k] for k in C.KWPREDS] + [['nest', 3, 1, None, 'a']]
     ops += [['distinct'], ['without_distinct']]
+    ops += helper_ops(kind)
     for n in NESTS:
         if n[0] == 'nest' and n[3] and not C.applicable(kind, C.PREDS[n[3]][0]): continue
         ops.append(n)
@@ -413,6 +439,7 @@ def correspondence(ctx):
     n_chain = 0
     if ctx.thorough: chains = gen_chains(rng, ['a', 'ent'], list(C.DATASETS), 1, 20000)
     else: chains = itertools.chain(gen_chains(rng, ['a', 'ent'], ['dups'], 1, 0, wheres=(None,)), gen_chains(rng, ['a', 'ent'], ['seven', 'empty', 'one'], 0, 1500))
+    chains = itertools.chain(helper_chains(['a', 'ent'], ['seven']), chains)
     for ch in chains:
         if ch['term'][0] in ('random', 'avg'): continue
         try:
@@ -509,7 +536,7 @@ def search(ctx, deep):
     else:
         gen = itertools.chain(gen_chains(ctx.rng, kinds, ['dups'], 1, 0, wheres=(None,)),
                               gen_chains(ctx.rng, kinds, ['empty', 'seven'], 0, 2500))
-    for ch in itertools.chain(corpus_chains(), gen):
+    for ch in itertools.chain(corpus_chains(), helper_chains(kinds, ['seven'] if not deep else ['seven', 'dups', 'uniq']), gen):
         try:
             mism, _ = C.check_chain(ch)
         except C.Unsupported:
